@@ -47,8 +47,11 @@ def jobs(tier):
                 out.append((c, tier, None, grp))
         else:
             out.append((c, tier))
+    from ..model import DIM
+    for c in MESH_CLASSES:
+        # integer-dtype face positions and cell values (legal inputs): nothing may be truncated on the way
+        out.append((c, tier, F.QUICK_SMALL_SIZES[DIM[c]][-1], None, 'int'))
     if tier == 'quick':
-        from ..model import DIM
         for c in MESH_CLASSES:
             for sz in F.QUICK_SMALL_SIZES[DIM[c]]:
                 out.append((c, tier, sz))
@@ -110,10 +113,11 @@ def job(args):
     cls, tier = args[0], args[1]
     sizes = args[2] if len(args) > 2 else None
     only = set(args[3]) if len(args) > 3 and args[3] else None
+    dtype = args[4] if len(args) > 4 else 'real'
     sm = SourceModel()
-    w = World(sm, cls, sizes=sizes)
+    w = World(sm, cls, sizes=sizes, int_data=(dtype == 'int'))
     obs, samples, units = [], [], set()
-    szt = f" sizes={sizes}" if sizes else ''
+    szt = (f" sizes={sizes}" if sizes else '') + (' dtype=int' if dtype == 'int' else '')
 
     def ob(rule, construct, ok, detail='', loc=''):
         obs.append(dict(rule=rule, construct=construct, ok=bool(ok), detail=(str(detail) + szt)[:1500], loc=loc, nontrivial=True))
